@@ -280,7 +280,13 @@ def weave(job, cpath, info, outdir, witness_mode=False):
         c = contracts.get(cn)
         if c is None:
             return ''
-        return c.render()
+        txt = c.render()
+        if cn == entry:
+            # the contract vocabulary calls the input parameter `in`; an unnamed C++ parameter is lowered as _pN
+            names = [p['name'] for p in fi.get('params', [])]
+            if names and 'in' not in names and names[0].startswith('_p'):
+                txt = re.sub(r'\bin\b', names[0], txt)
+        return txt
 
     def sub_loop(m):
         cn, o = m.group(1), int(m.group(2))
